@@ -207,6 +207,9 @@ class Search(abc.ABC):
         try:
             if np.isscalar(timeout) and timeout > 0:
                 self._evaluator.timeout = timeout
+            else:
+                # No time budget for this call: forget the (possibly expired) one of a past call
+                self._evaluator.timeout = None
             self._search(max_evals, timeout, max_evals_strict)
         except TimeoutReached:
             self.stopped = True
